@@ -446,7 +446,7 @@ def make_run(seed, tier, index, prop="C06"):
 # ---------------------------------------------------------------------------------------------
 # cornerstone schedules: short, systematic scenarios; only points/times/containers are seeded
 # ---------------------------------------------------------------------------------------------
-VARIANTS = ["plain", "b_between", "b_fails", "a_aborted"]
+VARIANTS = ["plain", "b_between", "b_fails", "a_aborted", "a_retry"]
 
 
 def cornerstone_list(tier):
@@ -466,6 +466,8 @@ def cornerstone_list(tier):
             for v in VARIANTS:
                 if f.cost != "cheap" and v in ("b_fails",):
                     continue
+                if v == "a_retry" and (p + q) % 2:
+                    continue        # half of the pairs: the retry scenario is about A alone
                 out.append((f.name, p, q, v))
     return out
 
@@ -500,6 +502,17 @@ def make_cornerstone(seed, tier, k, prop="C06"):
         pb, tb, lb = g.request_points(b)
         g.call_op(1, b, pb, tb, lb)
     g.call_op(0, a, pa, ta, la)
+    if variant == "a_retry":
+        # a solution for one time exists; a call at a NEW time is interrupted; the caller retries at that new time
+        t_new = fhex(float.fromhex(ta) * 0.5 if float.fromhex(ta) != 0 else 0.25)
+        ps_a = fam.pool[a.pi]
+        other = [t for t in ps_a.times if fhex(t) != ta]
+        if other:
+            t_new = fhex(other[0])
+        g.call_op(0, a, pa, t_new, la)
+        intents.append({"step": len(g.ops) - 1, "kinds": ["abort", "dep"], "u": fhex(rng.random()), "mode": "before", "exc": "RuntimeError"})
+        g.call_op(0, a, pa, t_new, la)
+        g.call_op(0, a, pa, ta, la)
     if a.requests:
         g.recall(0, a)
     a2 = g.new_op(0, fam, qual=a.qual, pi=p)
@@ -714,6 +727,12 @@ def conformance(g, client, qual, rng, tier):
     yield
     g.ops.append({"op": "dump", "c": client, "sol": victim["sol"], "dev": "sim", "bufsize": rng.choice([1, 64, 8192])})
     yield
+    if victim.get("cont") in ("nd", "strided", "fortran") and not fixed_n and fam.gran != "mader":
+        # ... then refills the very same ndarray object with other points (x += dx) and asks again, same time:
+        # the positions returned must be the ones now in the array
+        shifted = pts + 0.0625 * (1.0 + abs(pts))
+        g.call_op(client, st, shifted, thex, layout, cont=victim["cont"], buf=victim["buf"])
+        yield
     if not fixed_n:
         n2 = rng.choice([x for x in [1, 2, 3, 7, 40] if x != n])
         pts2, thex2, layout2 = g.request_points(st, n=n2)
@@ -792,6 +811,8 @@ def make_c05_sweep(seed, tier, k):
             op = g.ops[-1]
             kw = dict(kw0)
             kw[name] = 1.0
+            if rng.random() < 0.25:
+                kw["verbose"] = True
             op["kw"] = enc(kw)
             op["expect"] = "ValueError"
         for m in missing_params(cls):
